@@ -173,7 +173,7 @@ EXTRA7 = {
 
 EXTRA8 = {
     "C01": " ROW also runs remove() on a single-valued row and on a value that is not in the row. RANGEREC: SelectorIter::next follows the annotations of a ranged selector like a single AnnotationSelector.",
-    "C02": " ROW: as C01.ROW. EVERY: a cascade loop that removes dependents calls the removal on every path back to its head.",
+    "C02": " ROW: as C01.ROW. EVERY: a cascade loop that removes dependents calls the removal on every path back to its head. OWNROW: a preremove callback drops a whole row (remove_all) only of a map keyed by the handle kind being removed, with an argument derived from its own handle parameter (resolved generic arguments, MIR provenance).",
     "C03": " IDFIRST: resolve_id looks the string up in the id map before reading it as a temporary id (dominance).",
     "C05": " MOVED: set_filename marks stand-off resources and datasets changed when it moves the store.",
     "C07": " REGEXFLAGS: no RegexSet is rebuilt from Regex::as_str. OVERLAP: the refill of buffered matches that begin inside the chosen match is a loop.",
